@@ -27,6 +27,11 @@ def gen_ops(tier, rng):
             for q in range(nparams):
                 ops.append('app S%d p%d' % (nsub, q))
             nsub += 1
+    # every elementary substitution made so far is asked again after all of them exist (the factory must not confuse two substitutions
+    # of one parameter, nor two parameters bound to one value)
+    for k in range(nsub):
+        for q in range(nparams):
+            ops.append('app S%d p%d' % (k, q))
     nhist = 40 if tier == 'quick' else 1500
     for h in range(nhist):
         pool = rng.randint(1, nparams)
